@@ -69,6 +69,20 @@ pub struct KnownFinding {
     pub status: String,
     pub signature: String,
     pub description: String,
+    /// if set, the entry covers only violations found on scripts whose name starts with this prefix
+    pub script_prefix: Option<String>,
+}
+
+impl KnownFinding {
+    pub fn covers(&self, property: &str, v: &Violation) -> bool {
+        self.property == property
+            && self.status == "known"
+            && self.signature == v.signature
+            && match &self.script_prefix {
+                None => true,
+                Some(p) => v.description.starts_with(&format!("script {p}")),
+            }
+    }
 }
 
 pub fn load_known() -> Vec<KnownFinding> {
@@ -84,6 +98,7 @@ pub fn load_known() -> Vec<KnownFinding> {
                     status: f["status"].as_str().unwrap_or("").into(),
                     signature: f["signature"].as_str().unwrap_or("").into(),
                     description: f["description"].as_str().unwrap_or("").into(),
+                    script_prefix: f["script_prefix"].as_str().map(|s| s.to_string()),
                 })
                 .collect()
         })
@@ -109,20 +124,21 @@ pub fn finish(mut rep: Report, tier: Tier, t0: std::time::Instant) -> i32 {
         }
     }
     for v in &rep.violations {
-        if !seen.insert(v.signature.clone()) {
+        let k = known.iter().find(|k| k.covers(&rep.property, v));
+        // one report per signature - separately for what a listed finding covers and for what it does not
+        if !seen.insert(format!("{}#{}", v.signature, k.map(|k| k.script_prefix.clone().unwrap_or_default()).unwrap_or_else(|| "<new>".into()))) {
             continue;
         }
-        let k = known.iter().find(|k| k.property == rep.property && k.status == "known" && k.signature == v.signature);
         match k {
             Some(k) => {
-                lines.push(format!("KNOWN-FINDING: property={} {} ({})", rep.property, k.signature, k.description));
+                lines.push(format!("KNOWN-FINDING: property={} {}{} ({})", rep.property, k.signature, k.script_prefix.as_ref().map(|p| format!(" on {p}*")).unwrap_or_default(), k.description));
                 known_hits.push(k.signature.clone());
             }
             None => {
                 new_viol += 1;
                 let rdir = dir.join("replays").join(&rep.property);
                 let _ = std::fs::create_dir_all(&rdir);
-                let name = format!("{}.json", netmc::hexhash(v.signature.as_bytes()));
+                let name = format!("{}.json", netmc::hexhash(format!("{}{}", v.signature, if known.iter().any(|k| k.property == rep.property && k.status == "known" && k.signature == v.signature) { v.description.lines().next().unwrap_or("") } else { "" }).as_bytes()));
                 let path = rdir.join(name);
                 let mut body = v.replay.clone();
                 body["property"] = json!(rep.property);
